@@ -1,4 +1,4 @@
-import Refinery.Lemmas.Collector
+import Refinery.Lemmas.CollectorFacts
 /-!
 # C02 — Kept spans are forwarded exactly once, dropped spans never
 
@@ -16,55 +16,6 @@ worker assignment `P.owner` (hence any worker count) and every kept-record capac
 -/
 namespace Refinery.Props.C02
 open Refinery.Model.Collector Refinery.Lemmas.Collector
-
-theorem id_lt {s : St} (h : Inv s) {sp : SpanRec} (hsp : sp ∈ s.accepted) : sp.id < s.nextId := by
-  have : sp.id ∈ ids s.accepted := List.mem_map.mpr ⟨sp, hsp, rfl⟩
-  rw [h.accIds] at this
-  exact List.mem_range.mp this
-
-theorem inj_of_nodup_map {α β : Type} (f : α → β) :
-    ∀ {l : List α}, (l.map f).Nodup → ∀ {a b}, a ∈ l → b ∈ l → f a = f b → a = b
-  | [], _, _, _, ha, _, _ => by simp at ha
-  | x :: l, hn, a, b, ha, hb, hab => by
-    rw [List.map_cons, List.nodup_cons] at hn
-    rcases List.mem_cons.mp ha with ha | ha <;> rcases List.mem_cons.mp hb with hb | hb
-    · rw [ha, hb]
-    · have : f x ∈ l.map f := List.mem_map.mpr ⟨b, hb, by rw [← hab, ha]⟩
-      exact absurd this hn.1
-    · have : f x ∈ l.map f := List.mem_map.mpr ⟨a, ha, by rw [hab, hb]⟩
-      exact absurd this hn.1
-    · exact inj_of_nodup_map f hn.2 ha hb hab
-
-/-- accepted spans have pairwise different ids -/
-theorem uniq_id {s : St} (h : Inv s) {a b : SpanRec} (ha : a ∈ s.accepted) (hb : b ∈ s.accepted)
-    (hab : a.id = b.id) : a = b := by
-  have hn : (s.accepted.map (·.id)).Nodup := by
-    have := h.accIds; unfold ids at this; rw [this]; exact List.nodup_range
-  exact inj_of_nodup_map (·.id) hn ha hb hab
-
-theorem filter_le_one {α : Type} (p : α → Bool) :
-    ∀ {l : List α}, (l.filter p).length ≤ 1 → ∀ {a b}, a ∈ l → p a = true → b ∈ l → p b = true → a = b := by
-  intro l hl a b ha hpa hb hpb
-  have ha' : a ∈ l.filter p := List.mem_filter.mpr ⟨ha, hpa⟩
-  have hb' : b ∈ l.filter p := List.mem_filter.mpr ⟨hb, hpb⟩
-  match hf : l.filter p, hl, ha', hb' with
-  | [], _, ha', _ => simp at ha'
-  | [x], _, ha', hb' => simp at ha' hb'; rw [ha', hb']
-  | _ :: _ :: _, hl, _, _ => simp at hl
-
-/-- a remembered trace has one decision: any two decisions of it coincide -/
-theorem decision_unique {s : St} (h : Inv s) {t : Nat} (hm : t ∉ s.missed) {d d' : DecRec}
-    (hd : d ∈ s.decisions) (hdt : d.trace = t) (hd' : d' ∈ s.decisions) (hdt' : d'.trace = t) : d = d' :=
-  filter_le_one (fun d => d.trace == t) (h.once t hm) hd (by simpa using hdt) hd' (by simpa using hdt')
-
-theorem mem_ids {l : List SpanRec} {i : Nat} (h : i ∈ ids l) : ∃ sp ∈ l, sp.id = i := by
-  simpa [ids] using h
-
-theorem mem_sendIds {l : List Sendable} {i : Nat} (h : i ∈ sendIds l) : ∃ sd ∈ l, ∃ sp ∈ sd.spans, sp.id = i := by
-  simp only [sendIds, List.mem_flatMap] at h
-  obtain ⟨sd, hsd, hi⟩ := h
-  obtain ⟨sp, hsp, rfl⟩ := mem_ids hi
-  exact ⟨sd, hsd, sp, hsp, rfl⟩
 
 /-! ## The property theorems -/
 
@@ -106,25 +57,11 @@ theorem dropped_never_trace (P : Params) (dry : Bool) (ops : List Op) (t : Nat)
 
 /-- **dropped_never**, DryRun never enabled: no accepted span of a dropped trace ever reaches the
 transmission. -/
-theorem dropped_never_nodry (P : Params) (ops : List Op) (t : Nat)
-    (hnodry : (run P false ops).everDry = false)
-    (hdrop : ∀ d ∈ (run P false ops).decisions, d.trace = t → d.keep = false) :
-    ∀ sp ∈ (run P false ops).accepted, sp.trace = t → timesForwarded (run P false ops) sp.id = 0 := by
-  intro sp hsp ht
-  have h := inv_run P false ops
-  unfold timesForwarded
-  rw [List.count_eq_zero]
-  intro hmem
-  obtain ⟨f, hf, hfs⟩ := List.mem_map.mp hmem
-  obtain ⟨sp', hsp', hid, htr, _⟩ := h.outAcc f hf
-  have hsame : sp' = sp := uniq_id h hsp' hsp (hid.trans hfs)
-  have hfd := (h.noDry hnodry).2.2 f hf
-  obtain ⟨d, hd, hdt, hor⟩ := (h.outWet f hf hfd).2
-  have hdd := (h.noDry hnodry).2.1 d hd
-  have hdk := hdrop d hd (by rw [hdt, ← htr, hsame, ht])
-  rcases hor with h1 | h1
-  · rw [hdk] at h1; cases h1
-  · rw [hdd] at h1; cases h1
+theorem dropped_never_nodry (P : Params) (dry : Bool) (ops : List Op) (t : Nat)
+    (hnodry : (run P dry ops).everDry = false)
+    (hdrop : ∀ d ∈ (run P dry ops).decisions, d.trace = t → d.keep = false) :
+    ∀ sp ∈ (run P dry ops).accepted, sp.trace = t → timesForwarded (run P dry ops) sp.id = 0 :=
+  dropped_never_of_inv (inv_run P dry ops) t hnodry hdrop
 
 /-- **kept_all** — once `tracesToSend` holds nothing of trace `t`, every accepted span of a kept
 trace whose decision is still remembered has been forwarded exactly once: none is lost, none is
@@ -133,40 +70,8 @@ theorem kept_all (P : Params) (dry : Bool) (ops : List Op) (t : Nat)
     (hrem : Remembered (run P dry ops) t)
     (hkept : ∃ d ∈ (run P dry ops).decisions, d.trace = t ∧ d.keep = true)
     (hdrained : ∀ sd ∈ (run P dry ops).toSend, sd.trace ≠ t) :
-    ∀ sp ∈ (run P dry ops).accepted, sp.trace = t → timesForwarded (run P dry ops) sp.id = 1 := by
-  intro sp hsp ht
-  have h := inv_run P dry ops
-  obtain ⟨d, hd, hdt, hdk⟩ := hkept
-  have hc := h.cons sp.id
-  rw [if_pos (id_lt h hsp)] at hc
-  have hbuf : (ids (run P dry ops).buf).count sp.id = 0 := by
-    rw [List.count_eq_zero]
-    intro hm
-    obtain ⟨sp', hsp', hid⟩ := mem_ids hm
-    have : sp' = sp := uniq_id h (h.bufAcc sp' hsp') hsp hid
-    subst this
-    exact hrem.1 (ht ▸ h.bufMissed sp' hsp' ⟨d, hd, hdt.trans ht.symm⟩)
-  have hsend : (sendIds (run P dry ops).toSend).count sp.id = 0 := by
-    rw [List.count_eq_zero]
-    intro hm
-    obtain ⟨sd, hsd, sp', hsp', hid⟩ := mem_sendIds hm
-    obtain ⟨ha, htr⟩ := h.sendAcc sd hsd sp' hsp'
-    have : sp' = sp := uniq_id h ha hsp hid
-    subst this
-    exact hdrained sd hsd (htr.symm.trans ht)
-  have hdisc : (ids (run P dry ops).discarded).count sp.id = 0 := by
-    rw [List.count_eq_zero]
-    intro hm
-    obtain ⟨sp', hsp', hid⟩ := mem_ids hm
-    have : sp' = sp := uniq_id h (h.discAcc sp' hsp') hsp hid
-    subst this
-    rcases h.discDec sp' hsp' with ⟨d', hd', hdt', hdk'⟩ | hfp
-    · have := decision_unique h hrem.1 hd hdt hd' (hdt'.trans ht)
-      subst this
-      rw [hdk] at hdk'; cases hdk'
-    · exact hrem.2 (ht ▸ hfp)
-  unfold timesForwarded
-  omega
+    ∀ sp ∈ (run P dry ops).accepted, sp.trace = t → timesForwarded (run P dry ops) sp.id = 1 :=
+  kept_all_of_inv (inv_run P dry ops) t hrem hkept hdrained
 
 /-- **no_undecided_send** — a span is forwarded only for a trace that has been decided; the one
 exception the code allows is a false positive of the dropped-trace filter under dry run (the span
